@@ -73,6 +73,7 @@ func replayCheck(args []string) (any, error) {
 				sum.miss(sig, detail)
 				return nil
 			}
+			disturbParser()
 			ss, perr := parser.ParsePipeline(ps.Main, text)
 			if perr != nil {
 				return fmt.Errorf("spec judged a program that does not parse: %s", text)
